@@ -19,16 +19,18 @@ theorem pullPackResp_ok {s : Server} {f : Flight} {r : Resp} (h : pullPackResp s
     injection h with h; subst h
     unfold preparePackCore at hr
     split at hr
-    · injection hr with hr; subst hr; exact Or.inl ⟨rfl, rfl, rfl⟩
+    · simp at hr
     · split at hr
-      · simp at hr
+      · injection hr with hr; subst hr; exact Or.inl ⟨rfl, rfl, rfl⟩
       · split at hr
         · simp at hr
-        · next hlt =>
-          split at hr
-          · injection hr with hr; subst hr
-            exact Or.inr (Or.inl ⟨by omega, rfl, rfl, rfl⟩)
-          · injection hr with hr; subst hr; exact Or.inr (Or.inr rfl)
+        · split at hr
+          · simp at hr
+          · next hlt =>
+            split at hr
+            · injection hr with hr; subst hr
+              exact Or.inr (Or.inl ⟨by omega, rfl, rfl, rfl⟩)
+            · injection hr with hr; subst hr; exact Or.inr (Or.inr rfl)
   · split at h
     · injection h with h; subst h; exact Or.inl ⟨rfl, rfl, rfl⟩
     · simp at h
